@@ -57,6 +57,7 @@ type LoopSpec struct {
 	Decreases   *Clause
 	Ghosts      []Clause // ghost name = expr: evaluated when the loop is entered, constant during the loop
 	ExitEnsures []Clause // must hold when the loop is left through its condition
+	StepEnsures []Clause // relates the loop variables after one iteration (plain names) to their values at the head of that iteration (prev(x)); checked at the back edge
 	Line        int
 }
 
@@ -120,7 +121,7 @@ type ContractFile struct {
 	Lemmas    []*Lemma
 }
 
-var kwRe = regexp.MustCompile(`^(func|mode|inline|trusted|param|let|requires|ensures|assigns|loop|invariant|modifies|decreases|rel|chain|assume_at_call|pathkey|spec|lemma|opt|captures|closure_inv|locals|yield_requires|ghost|exit_ensures|ghost_at)\b`)
+var kwRe = regexp.MustCompile(`^(func|mode|inline|trusted|param|let|requires|ensures|assigns|loop|invariant|modifies|decreases|rel|chain|assume_at_call|pathkey|spec|lemma|opt|captures|closure_inv|locals|yield_requires|ghost|exit_ensures|ghost_at|step_ensures)\b`)
 
 var unknownDirRe = regexp.MustCompile(`^[a-z_]+\s+[A-Za-z_(\[!*"0-9]`)
 
@@ -465,6 +466,23 @@ func ParseContracts(path string) (*ContractFile, error) {
 					return nil, err
 				}
 				curLoop.Ghosts = append(curLoop.Ghosts, Clause{Label: strings.TrimSpace(rest[:i]), Src: rest, Expr: e, Line: l.line})
+			case "step_ensures":
+				if curLoop == nil {
+					return nil, fail("step_ensures outside loop")
+				}
+				{
+					label := ""
+					if strings.HasPrefix(rest, "[") {
+						j := strings.Index(rest, "]")
+						label = rest[1:j]
+						rest = strings.TrimSpace(rest[j+1:])
+					}
+					e, err := parse(rest)
+					if err != nil {
+						return nil, err
+					}
+					curLoop.StepEnsures = append(curLoop.StepEnsures, Clause{Label: label, Src: rest, Expr: e, Line: l.line})
+				}
 			case "exit_ensures":
 				if curLoop == nil {
 					return nil, fail("exit_ensures outside loop")
